@@ -5,7 +5,7 @@ open NS Greg
 
 /-- The year window inside which every machine intermediate of the kernels is exact; it strictly
     contains Temporal's range (years −271821 … 275760). -/
-def InWin (y : Int) : Prop := -1000000 ≤ y ∧ y ≤ 1000000
+def InWin (y : Int) : Prop := -1200000 ≤ y ∧ y ≤ 1200000
 
 theorem year_decomp (y : Int) : ∃ q c k s : Int, y = 400 * q + 100 * c + 4 * k + s ∧
     0 ≤ c ∧ c ≤ 3 ∧ 0 ≤ k ∧ k ≤ 24 ∧ 0 ≤ s ∧ s ≤ 3 :=
@@ -240,7 +240,7 @@ theorem monthday (doy : Int) (h0 : 0 ≤ doy) (h1 : doy ≤ 365) :
   exact this
 
 theorem fromDays_core (n rd C R z r4 yoc e doy f M D : Int)
-    (hn : -300000000 ≤ n ∧ n ≤ 300000000)
+    (hn : -400000000 ≤ n ∧ n ≤ 400000000)
     (hrd : rd = n + 719468 + 146097 * 3670)
     (hN1 : 4 * rd + 3 = 146097 * C + R) (hR0 : 0 ≤ R) (hR1 : R < 146097)
     (hz : R = 4 * z + r4) (hr40 : 0 ≤ r4) (hr41 : r4 ≤ 3)
@@ -278,7 +278,7 @@ theorem fromDays_core (n rd C R z r4 yoc e doy f M D : Int)
     rcases hcr with rfl | rfl | rfl | rfl <;> rcases hyr with rfl | rfl | rfl | rfl <;> omega
 
 /-- Window of day numbers on which the reverse kernel is exact (⊃ Temporal's ±(10^8+1) days). -/
-def InDayWin (n : Int) : Prop := -300000000 ≤ n ∧ n ≤ 300000000
+def InDayWin (n : Int) : Prop := -400000000 ≤ n ∧ n ≤ 400000000
 
 /-- Explicit (division-only) form of the coded days → (y, m, d) kernel. -/
 def ymdExplicit (n : Int) : Int × Int × Int :=
